@@ -7,6 +7,10 @@ interleaving of the accesses to the lock word.  `cnt ph ths` = number of threads
 -/
 import TbbVerif.Proofs.C08
 import TbbVerif.Proofs.C08Spin
+import TbbVerif.Proofs.C08Q
+import TbbVerif.Proofs.C08QRw
+import TbbVerif.Proofs.C08SMx
+import TbbVerif.Proofs.C08SRwE
 import TbbVerif.Generated.C08
 
 namespace TbbVerif.C08
@@ -222,5 +226,348 @@ example :
 example :
     let st := (ssys [[.lock, .unlock], [.tryLock, .lock, .unlock]]).run [0, 1, 1, 0, 1, 1]
     st.flag = false ∧ (st.ths.map (·.results)) = [[], [0]] := by decide
+
+/-! ## queuing_mutex (`Mcs`, Model/C08Q.lean): N threads, all schedules of the atomic accesses -/
+
+open Mcs in
+/-- **Mutual exclusion of queuing_mutex**: two threads that hold the lock are the same thread; the holder is the
+head of the ghost queue (appended at the q_tail exchange / successful CAS, popped only at the hand-off). -/
+theorem mcs_excl (progs : List (List Mcs.Op)) (sched : List Tid) (st : Mcs.St) (hst : st = (Mcs.sys progs).run sched) (t u : Tid) :
+    ((st.th t).holds = true → (st.th u).holds = true → t = u) ∧
+    ((st.th t).holds = true → st.queue.head? = some t) ∧ st.bad = false := by
+  subst hst
+  have h := Mcs.inv_reachable progs sched
+  refine ⟨fun ht hu => ?_, fun ht => ?_, h.bad⟩
+  · have a := Mcs.holder_head h t ht
+    have b := Mcs.holder_head h u hu
+    rw [a] at b; exact Option.some.inj b
+  · rw [List.head?_eq_getElem?]; exact Mcs.holder_head h t ht
+
+open Mcs in
+/-- **FIFO**: the sequence of grants is a prefix of the sequence of q_tail exchanges (`enqLog`): the lock is granted
+in exactly the order in which the requests entered the queue; the queue is the not-yet-served part of that order. -/
+theorem mcs_fifo (progs : List (List Mcs.Op)) (sched : List Tid) (st : Mcs.St) (hst : st = (Mcs.sys progs).run sched) :
+    st.enqLog = st.served ++ st.queue ∧ st.grantLog <+: st.enqLog ∧
+    (∀ h r, st.queue = h :: r → st.grantLog = st.served ++ (if (st.th h).holds then [h] else [])) := by
+  subst hst
+  have h := Mcs.inv_reachable progs sched
+  refine ⟨h.logE, ?_, ?_⟩
+  · rw [h.logE, h.logG]
+    cases hq : ((Mcs.sys progs).run sched).queue with
+    | nil => simp
+    | cons a r =>
+      simp only
+      split
+      · exact ⟨r, by simp⟩
+      · exact ⟨a :: r, by simp⟩
+  · intro hd r hq
+    rw [h.logG, hq]
+
+open Mcs in
+/-- **No lost hand-off.** In every reachable state with a non-empty queue the head `h` is
+(a) the holder and not stuck (in its critical section, or progressing through release), or
+(b) the holder waiting in release for the late successor link — then the second thread of the queue is exactly at
+    the access `pred->m_next.store(this)` that ends this wait, or
+(c) not yet holding but already granted (`m_going` set): its next load obtains the lock;
+and every thread that waits (spinning on m_going or about to link) is in the queue. -/
+theorem mcs_no_lost_handoff (progs : List (List Mcs.Op)) (sched : List Tid) (st : Mcs.St) (hst : st = (Mcs.sys progs).run sched)
+    (h : Tid) (r : List Tid) (hq : st.queue = h :: r) :
+    (((st.th h).holds = true ∧ ¬((st.th h).pc = .rSpin ∧ (st.th h).next = 0)) ∨
+     ((st.th h).holds = true ∧ (st.th h).pc = .rSpin ∧ (st.th h).next = 0 ∧
+        ∃ u r', r = u :: r' ∧ (st.th u).pc = .aLink ∧ (st.th u).pred = h + 1 ∧ ∃ o, (st.th u).ops = .acquire :: o) ∨
+     ((st.th h).holds = false ∧ (st.th h).pc = .aSpin ∧ (st.th h).going ≠ 0 ∧ ∃ o, (st.th h).ops = .acquire :: o)) ∧
+    (∀ w, ((st.th w).pc = .aSpin ∨ (st.th w).pc = .aLink) → w ∈ st.queue) := by
+  have hi : Mcs.Inv st := hst ▸ Mcs.inv_reachable progs sched
+  have h0 : st.queue[0]? = some h := by rw [hq]; rfl
+  constructor
+  · rcases hi.head h h0 with hh | ⟨hpc, hgo⟩
+    · by_cases hs : (st.th h).pc = .rSpin ∧ (st.th h).next = 0
+      · right; left
+        refine ⟨hh, hs.1, hs.2, ?_⟩
+        cases r with
+        | nil =>
+          exfalso
+          -- h alone in the queue would mean q_tail = h+1, but a thread at rSpin has seen its CAS on q_tail fail
+          have hl : st.queue[st.queue.length - 1]? = some h := by rw [hq]; rfl
+          exact hi.spin h hs.1 (hi.tl1 h hl).1
+        | cons u r' =>
+          have h1 : st.queue[1]? = some u := by rw [hq]; rfl
+          have hp := hi.pair 0 h u h0 h1
+          rcases hp.2.2 with ⟨a, b, _⟩ | ⟨_, b⟩
+          · exact ⟨u, r', rfl, a, b, (hi.wf u).opA (Or.inr (Or.inr (Or.inl a)))⟩
+          · rw [hs.2] at b; cases b
+      · left; exact ⟨hh, hs⟩
+    · right; right
+      have hnh : (st.th h).holds = false := Mcs.holds_false_of (hi.wf h) (by simp [hpc])
+      exact ⟨hnh, hpc, hgo, (hi.wf h).opA (Or.inr (Or.inr (Or.inr hpc)))⟩
+  · intro w hw
+    have : Mcs.inQ (st.th w) := by
+      rcases hw with a | a
+      · exact Or.inr (Or.inr a)
+      · exact Or.inr (Or.inl a)
+    obtain ⟨i, hi'⟩ := (hi.mem w).mp this
+    exact List.mem_of_getElem? hi'
+
+open Mcs in
+/-- **try_acquire is truthful and never blocks**: its CAS succeeds exactly when q_tail is null, i.e. (in a reachable
+state) when nobody holds the lock or waits for it; then the caller is the holder.  A failed try changes nothing but
+the caller's own record; the whole call is three accesses of its own (two node stores and the CAS). -/
+theorem mcs_try_truthful (progs : List (List Mcs.Op)) (sched : List Tid) (st : Mcs.St) (hst : st = (Mcs.sys progs).run sched)
+    (t : Tid) (rest : List Mcs.Op) (hops : (st.th t).ops = .tryAcquire :: rest) (hpc : (st.th t).pc = .tCas) :
+    (st.tail = 0 ↔ st.queue = []) ∧
+    (st.tail = 0 → ((Mcs.step st t).th t).results = 1 :: (st.th t).results ∧ ((Mcs.step st t).th t).holds = true ∧
+        (∀ u, (st.th u).holds = false) ∧ (Mcs.step st t).queue = [t]) ∧
+    (st.tail ≠ 0 → ((Mcs.step st t).th t).results = 0 :: (st.th t).results ∧ ((Mcs.step st t).th t).holds = false ∧
+        (Mcs.step st t).tail = st.tail ∧ (Mcs.step st t).queue = st.queue ∧ ∀ u, u ≠ t → (Mcs.step st t).th u = st.th u) ∧
+    ((Mcs.step st t).th t).ops = rest := by
+  have hi : Mcs.Inv st := hst ▸ Mcs.inv_reachable progs sched
+  have hz := Mcs.tail_zero_iff hi
+  have hnh : (st.th t).holds = false := Mcs.holds_false_of (hi.wf t) (by simp [hpc])
+  refine ⟨hz, ?_, ?_, ?_⟩
+  · intro h0
+    have hq := hz.mp h0
+    simp [Mcs.step, Mcs.stepEv, hops, hpc, h0, Mcs.Th.done, hq]
+    intro u
+    cases hu : (st.th u).holds with
+    | false => rfl
+    | true => have := Mcs.holder_head hi u hu; rw [hq] at this; simp at this
+  · intro h0
+    simp [Mcs.step, Mcs.stepEv, hops, hpc, h0, Mcs.Th.done, hnh]
+    intro u hu; simp [Mcs.upd, hu]
+  · by_cases h0 : st.tail = 0 <;> simp [Mcs.step, Mcs.stepEv, hops, hpc, h0, Mcs.Th.done]
+
+open Mcs in
+/-- non-vacuity: two threads queue behind a holder; the hand-off order is the exchange order -/
+example :
+    let st := (Mcs.sys [[.acquire, .release], [.acquire, .release], [.tryAcquire, .acquire, .release]]).run
+      [0, 0, 0, 2, 2, 2, 2, 2, 2, 1, 1, 1, 2, 1, 0, 0, 0, 2, 2, 2, 2, 1, 1, 1]
+    st.enqLog = [0, 2, 1] ∧ st.grantLog = [0, 2, 1] ∧ st.queue = [] ∧ st.tail = 0 ∧ (st.th 2).results = [0] := by decide
+
+
+/-! ## queuing_rw_mutex: the SPECIFICATION machine `QRwSpec` (Model/C08Q.lean) against which the implementation's
+holder-bookkeeping event log is validated.  (The node protocol of queuing_rw_mutex.cpp itself is NOT modelled.) -/
+
+open QRw in
+/-- **Safety of the specification**: after any accepted event sequence there is at most one writer, and no reader
+together with a writer. -/
+theorem qrw_spec_safe (evs : List QRw.Ev) (s : QRw.St) (h : QRw.run {} evs = some s) :
+    QRw.nW s ≤ 1 ∧ (0 < QRw.nW s → QRw.nR s = 0) :=
+  QRw.good_counts s (QRw.good_run evs {} s (Or.inl (by simp)) h)
+
+open QRw in
+/-- **Queue order**: a blocking request is granted only if it is in the queue, no request that entered the queue
+QRw.before it conflicts with it (`QRw.before t q` is the prefix of the queue in front of t's request), and it is compatible
+with the current holders; the queue is appended at `enq` and an entry leaves it only by its own grant. -/
+theorem qrw_spec_queue_order (s s' : QRw.St) (t : Tid) (m : QRw.Mode) (h : QRw.step s (.grant t m) = some s') :
+    (t, m) ∈ s.queue ∧ (∀ e ∈ QRw.before t s.queue, QRw.conflict e.2 m = false) ∧ QRw.compat s.holders m = true ∧
+    (∃ post, s.queue = QRw.before t s.queue ++ post ∧ ∀ e ∈ QRw.before t s.queue, e.1 ≠ t) ∧
+    s'.queue = s.queue.erase (t, m) := by
+  simp only [QRw.step] at h
+  split at h
+  · rename_i hc
+    cases h
+    simp at hc
+    obtain ⟨post, h1, h2, _⟩ := QRw.before_prefix t s.queue
+    refine ⟨hc.1.1, ?_, hc.2, ⟨post, h1, h2⟩, by simp [QRw.enter]⟩
+    intro e he
+    have := hc.1.2 e.1 e.2 he
+    simpa using this
+  · cases h
+
+open QRw in
+theorem qrw_spec_queue_only_grant_removes (s s' : QRw.St) (e : QRw.Ev) (h : QRw.step s e = some s') :
+    s'.queue = s.queue ∨ (∃ t m, e = .enq t m ∧ s'.queue = s.queue ++ [(t, m)]) ∨ (∃ t m, e = .grant t m ∧ s'.queue = s.queue.erase (t, m)) := by
+  cases e <;> simp only [QRw.step] at h <;> split at h <;> cases h <;> simp [QRw.enter]
+  exact Or.inr ⟨_, _, ⟨rfl, rfl⟩, rfl⟩
+
+open QRw in
+/-- **Truthful upgrade**: if `upgrade_to_writer` of thread `u` is accepted with result `true`, then no writer entered
+(no `grant W`, `tryOk W`, `upgEnd`) between its `upgBegin` and this point. -/
+theorem qrw_spec_upgrade_truthful (pre mid : List QRw.Ev) (u : Tid) (s0 s : QRw.St)
+    (h : QRw.run s0 (pre ++ [.upgBegin u] ++ mid ++ [.upgEnd u true]) = some s)
+    (hmid : ∀ e ∈ mid, e ≠ .upgBegin u) : ∀ e ∈ mid, QRw.writerEntry e = false := by
+  rw [QRw.run_append] at h
+  cases h1 : QRw.run s0 (pre ++ [.upgBegin u] ++ mid) with
+  | none => rw [h1] at h; simp at h
+  | some s1 =>
+    rw [h1] at h; simp [QRw.run] at h
+    have hclean : (u, false) ∈ s1.upg := by
+      cases h2 : QRw.step s1 (.upgEnd u true) with
+      | none => rw [h2] at h; cases h
+      | some s2 =>
+        simp only [QRw.step] at h2
+        split at h2
+        · rename_i hc; simp at hc; exact hc.2
+        · cases h2
+    rw [QRw.run_append] at h1
+    cases h3 : QRw.run s0 (pre ++ [.upgBegin u]) with
+    | none => rw [h3] at h1; simp at h1
+    | some s3 =>
+      rw [h3] at h1; simp at h1
+      exact (QRw.clean_run mid s3 s1 u h1 hclean hmid).2
+
+open QRw in
+/-- **downgrade never lets a writer in**: it is one event that turns the writer into a reader; no state between. -/
+theorem qrw_spec_downgrade_atomic (s s' : QRw.St) (t : Tid) (h : QRw.step s (.downgrade t) = some s') :
+    s.holders = [(t, .W)] ∧ s'.holders = [(t, .R)] ∧ s'.queue = s.queue := by
+  simp only [QRw.step] at h
+  split at h
+  · rename_i hc; cases h; simp at hc; exact ⟨hc, rfl, rfl⟩
+  · cases h
+
+open QRw in
+/-- non-vacuity: two readers, both upgrade; the winner gets `true`, the loser must get `false` (a `true` is rejected) -/
+example :
+    (QRw.run {} [.enq 0 .R, .grant 0 .R, .enq 1 .R, .grant 1 .R, .enq 2 .W, .upgBegin 0, .upgBegin 1, .upgEnd 0 true, .rel 0,
+             .upgEnd 1 false, .rel 1, .grant 2 .W]).isSome = true ∧
+    (QRw.run {} [.enq 0 .R, .grant 0 .R, .enq 1 .R, .grant 1 .R, .upgBegin 0, .upgBegin 1, .upgEnd 0 true, .rel 0,
+             .upgEnd 1 true]).isSome = false ∧
+    (QRw.run {} [.enq 0 .W, .enq 1 .R, .grant 1 .R]).isSome = false := by decide
+
+
+/-! ## tbb::mutex (`Slp.Mx`, Model/C08S.lean): flag protocol + sleep/wake hand-shake, N threads, all schedules,
+any spin budget, any peek-oracle bits -/
+
+open Slp.Mx in
+/-- **Mutual exclusion of tbb::mutex**: at most one holder; the flag is set iff somebody holds. -/
+theorem mutex_excl (progs : List (List Slp.Mx.Op)) (orcs : List (List Bool)) (sm : Nat) (sched : List Tid)
+    (st : Slp.Mx.St) (hst : st = (Slp.Mx.sys progs orcs sm).run sched) :
+    (∀ t u, (st.th t).holds = true → (st.th u).holds = true → t = u) ∧
+    (st.flag = true ↔ ∃ t, (st.th t).holds = true) := by
+  have h : Slp.Mx.Inv st := hst ▸ Slp.Mx.inv_reachable progs orcs sm sched
+  exact ⟨h.e.e1, h.e.e3, fun ⟨t, ht⟩ => h.e.e2 t ht⟩
+
+open Slp.Mx in
+/-- **try_lock is truthful and never blocks**: one load, and if that saw the flag clear one exchange; it reports
+success exactly when its exchange found the flag clear (and then the caller holds), it never enters the wait. -/
+theorem mutex_try_truthful (st : Slp.Mx.St) (t : Tid) (rest : List Slp.Mx.Op) (hops : (st.th t).ops = .tryLock :: rest)
+    (hh : (st.th t).holds = false) :
+    ((st.th t).pc = .start → st.flag = true → ((Slp.Mx.step st t).th t).ops = rest ∧ ((Slp.Mx.step st t).th t).results = 0 :: (st.th t).results ∧ (Slp.Mx.step st t).flag = true) ∧
+    ((st.th t).pc = .start → st.flag = false → ((Slp.Mx.step st t).th t).pc = .xchg ∧ ((Slp.Mx.step st t).th t).ops = (st.th t).ops) ∧
+    ((st.th t).pc = .xchg → ((Slp.Mx.step st t).th t).ops = rest ∧ (Slp.Mx.step st t).flag = true ∧
+        (((Slp.Mx.step st t).th t).results = 1 :: (st.th t).results ↔ st.flag = false) ∧
+        (st.flag = false → ((Slp.Mx.step st t).th t).holds = true)) := by
+  refine ⟨fun hpc hf => ?_, fun hpc hf => ?_, fun hpc => ?_⟩
+  · simp [Slp.Mx.step, Slp.Mx.stepEv, hops, hpc, hh, hf, Slp.Mx.Th.done]
+  · simp [Slp.Mx.step, Slp.Mx.stepEv, hops, hpc, hh, hf]
+  · cases hf : st.flag <;> simp [Slp.Mx.step, Slp.Mx.stepEv, hops, hpc, hf, Slp.Mx.Th.done]
+
+open Slp.Mx in
+/-- **No lost hand-off / no lost wake-up.**  In every reachable state:
+(1) if the lock is free while some thread has committed to sleep (its predicate saw the flag set) and is still in the
+    wait set, then an unlocker is between its `exchange(false)` and its removal of a waiter (`Slp.Mx.Nt`), or a thread that a
+    notifier already removed from the wait set has not yet re-examined the flag (`Slp.Mx.Tk`: it will take the lock, or see it
+    taken by somebody whose unlock starts the next notification);
+(2) every thread that a notifier removed from the wait set and that has not consumed its wake-up has that wake-up in
+    flight: its semaphore is already V'ed, or the notifier is about to V it. -/
+theorem mutex_handoff_no_loss (progs : List (List Slp.Mx.Op)) (orcs : List (List Bool)) (sm : Nat) (sched : List Tid)
+    (st : Slp.Mx.St) (hst : st = (Slp.Mx.sys progs orcs sm).run sched) :
+    (st.flag = false → Slp.Mx.Sl st → Slp.Mx.Nt st ∨ Slp.Mx.Tk st) ∧ Slp.WakeInFlight st.mon (Slp.Mx.mwOf st) := by
+  have h : Slp.Mx.Inv st := hst ▸ Slp.Mx.inv_reachable progs orcs sm sched
+  exact ⟨h.nl, h.m.wake⟩
+
+open Slp.Mx in
+/-- non-vacuity: t1 goes to sleep behind t0 (spin budget 2), t0's unlock removes it and V's it, t1 takes the lock -/
+example :
+    let st := (Slp.Mx.sys [[.lock, .unlock], [.lock, .unlock]] [] 2).run
+      [0, 0, 1, 1, 1, 1, 1, 1, 0, 0, 0, 0, 1, 1, 1, 1]
+    st.flag = true ∧ (st.th 1).holds = true ∧ st.mon.waitset = [] ∧ st.mon.epoch = 1 ∧ st.mon.posted = [] := by decide
+
+
+/-! ## tbb::rw_mutex (`Slp.Rw`): word protocol (unlock keeps WRITER_PENDING; try_lock_shared undoes on WRITER or
+WRITER_PENDING) + sleep/wake hand-shake with writer / reader contexts -/
+
+open Slp.Rw in
+/-- **Reader-writer exclusion of tbb::rw_mutex**, the word's reader field equals the number of threads owning a
+reader unit, WRITER is set iff some thread is the writer or an in-place upgrader, no borrow across bit fields. -/
+theorem rwm_excl (progs : List (List Slp.Rw.Op)) (orcs : List (List Bool)) (sm : Nat) (sched : List Tid)
+    (st : Slp.Rw.St) (hst : st = (Slp.Rw.sys progs orcs sm).run sched) :
+    Slp.Rw.cntS .holdW st.ths ≤ 1 ∧ (0 < Slp.Rw.cntS .holdW st.ths → Slp.Rw.cntS .holdR st.ths = 0) ∧
+    (0 < Slp.Rw.cntS .holdR st.ths + Slp.Rw.cntS .upgWait st.ths + Slp.Rw.cntS .upgReady st.ths → Slp.Rw.cntS .holdW st.ths = 0) ∧
+    st.word.r = Slp.Rw.cntS .rt st.ths + Slp.Rw.cntS .holdR st.ths + Slp.Rw.cntS .upgWait st.ths + Slp.Rw.cntS .upgReady st.ths ∧
+    Slp.Rw.cntS .holdW st.ths + Slp.Rw.cntS .upgWait st.ths + Slp.Rw.cntS .upgReady st.ths = (if st.word.w then 1 else 0) ∧
+    st.bad = false := by
+  have h : Slp.Rw.Inv st := hst ▸ Slp.Rw.inv_reachable progs orcs sm sched
+  have hw := h.c.hw
+  have hx := h.c.hx
+  refine ⟨by split at hw <;> omega, fun hh => hx (by omega), fun hpos => ?_, h.c.hr, h.c.hw, h.c.hbad⟩
+  by_cases hq : 0 < Slp.Rw.cntS .holdW st.ths
+  · have := hx (by omega)
+    split at hw <;> omega
+  · omega
+
+open Slp.Rw in
+/-- **Truthful upgrade**: a thread inside `upgrade` that has not entered the slow path (release + lock, result false)
+still owns its reader unit, and then no thread is the writer — so no writer can have run between the call and a
+`true` return. -/
+theorem rwm_upgrade_fast_path_holds (progs : List (List Slp.Rw.Op)) (orcs : List (List Bool)) (sm : Nat) (sched : List Tid)
+    (st : Slp.Rw.St) (hst : st = (Slp.Rw.sys progs orcs sm).run sched) (tid : Nat) (t : Slp.Rw.Th) (rest : List Slp.Rw.Op) :
+    st.ths[tid]? = some t → t.ops = .upgrade :: rest → t.pc ≠ .start → t.slow = false →
+    (t.phase = .holdR ∨ t.phase = .upgWait ∨ t.phase = .upgReady) ∧ Slp.Rw.cntS .holdW st.ths = 0 := by
+  intro hget hops hpc hsl
+  have h : Slp.Rw.Inv st := hst ▸ Slp.Rw.inv_reachable progs orcs sm sched
+  have w4 := (h.wf tid t hget).op
+  rw [hops] at w4
+  have hph : t.phase = .holdR ∨ t.phase = .upgWait ∨ t.phase = .upgReady := by
+    rcases w4 with a | ⟨_, a, _⟩ | ⟨_, a, _⟩ | ⟨_, _, a, _⟩ | ⟨_, a, _⟩ | ⟨_, _, a⟩ | ⟨_, _, a, _⟩ | ⟨_, a, _⟩
+    · exact absurd a hpc
+    · exact Or.inl a
+    · exact Or.inr (Or.inl a)
+    · exact Or.inr (Or.inl a)
+    · exact Or.inr (Or.inr a)
+    all_goals (rw [hsl] at a; cases a)
+  refine ⟨hph, (rwm_excl progs orcs sm sched st hst).2.2.1 ?_⟩
+  rcases hph with hp | hp | hp
+  · have := Slp.Rw.cntS_pos_of_mem .holdR _ tid t hget hp; omega
+  · have := Slp.Rw.cntS_pos_of_mem .upgWait _ tid t hget hp; omega
+  · have := Slp.Rw.cntS_pos_of_mem .upgReady _ tid t hget hp; omega
+
+open Slp.Rw in
+/-- **downgrade never lets a writer in**: one atomic access turns the writer into a reader. -/
+theorem rwm_downgrade_atomic (tid sm : Nat) (s : Word) (m : Slp.Mon) (t : Slp.Rw.Th) (rest : List Slp.Rw.Op) (hops : t.ops = .downgrade :: rest)
+    (hpc : t.pc = .start) (hph : t.phase = .holdW) :
+    (Slp.Rw.stepTh tid sm s m t).1 = { s with w := false, r := s.r + 1 } ∧ (Slp.Rw.stepTh tid sm s m t).2.2.2.1.phase = .holdR := by
+  simp [Slp.Rw.stepTh, hops, hpc, hph, Slp.Rw.Op.pre, Slp.Rw.stepOp]
+
+open Slp.Rw in
+/-- **Wake rules** (one step): whenever one access of a thread turns the wake-up condition of a waiter kind (writer:
+not BUSY; reader: no WRITER and no WRITER_PENDING; upgrader: readers == 1) from false to true, that same thread goes
+on to notify that kind's context (directly, or — after downgrade's fetch_add — at the load that decides it).
+`h1`,`h2` are consequences of the counting invariant in reachable states (the in-place upgrader holds WRITER; a
+sleeping upgrader owns a reader unit and is the only in-place upgrader). -/
+theorem rwm_wake_rules (tid sm : Nat) (s : Word) (m : Slp.Mon) (t : Slp.Rw.Th) (k : Slp.Rw.WKind)
+    (h1 : t.pc = .upFin → s.w = true) (h2 : k = .upg → 1 ≤ s.r ∧ t.pc ≠ .upFin)
+    (hc : k.cond s = false) (hc' : k.cond (Slp.Rw.stepTh tid sm s m t).1 = true) :
+    Slp.Rw.Covers (Slp.Rw.stepTh tid sm s m t).2.2.2.1 k.ctx :=
+  Slp.Rw.wake_rules_step tid sm s m t k h1 h2 hc hc'
+
+open Slp.Rw in
+/-- **Wake-up in flight** (all schedules): every thread that a notifier removed from the wait set and that has not
+consumed its wake-up has its semaphore V'ed or a notifier about to V it — no wake-up is lost between the removal
+from the wait set and the sleeper. -/
+theorem rwm_wake_in_flight (progs : List (List Slp.Rw.Op)) (orcs : List (List Bool)) (sm : Nat) (sched : List Tid)
+    (st : Slp.Rw.St) (hst : st = (Slp.Rw.sys progs orcs sm).run sched) : Slp.WakeInFlight st.mon (Slp.Rw.mwOfL st.ths) := by
+  have h : Slp.Rw.Inv st := hst ▸ Slp.Rw.inv_reachable progs orcs sm sched
+  exact h.wake
+
+
+/-! ## memory orders (regenerated from the E-SHIM traces of all lock kinds) -/
+
+/-- is the order at least `release` (release / acq_rel / seq_cst)?  (std::memory_order numbering: relaxed 0,
+consume 1, acquire 2, release 3, acq_rel 4, seq_cst 5) -/
+def relOK (o : Nat) : Bool := o == 3 || o == 4 || o == 5
+def acqOK (o : Nat) : Bool := o == 2 || o == 4 || o == 5
+
+/-- **rw_orders_publish**: in the table (lock kind, variable, access kind, memory order actually executed, role)
+regenerated from the traces, every access that releases a lock is a release-or-stronger store/RMW, every access that
+acquires one is an acquire-or-stronger load/RMW, and every releasing access has an acquiring access on the same
+variable of the same lock — which is what makes the writes of a critical section visible to the next holder under
+C++11 (and TSO).  role: 1 = acquiring, 2 = releasing. -/
+theorem rw_orders_publish :
+    (∀ e ∈ Generated.C08.orders, e.2.2.2.2 = 2 → relOK e.2.2.2.1 = true) ∧
+    (∀ e ∈ Generated.C08.orders, e.2.2.2.2 = 1 → acqOK e.2.2.2.1 = true) ∧
+    (∀ e ∈ Generated.C08.orders, e.2.2.2.2 = 2 →
+        Generated.C08.orders.any (fun a => a.1 == e.1 && a.2.1 == e.2.1 && a.2.2.2.2 == 1) = true) ∧
+    Generated.C08.orders ≠ [] := by decide
 
 end TbbVerif.C08
